@@ -29,7 +29,7 @@ FFLAGS = "-O1 -g -fno-omit-frame-pointer"
 DRV_FFLAGS = ["-O1", "-g", "-w", "-fno-omit-frame-pointer", "-ffree-line-length-none", "-fsanitize=address,undefined",
               "-fno-sanitize-recover=undefined"]
 DRV_SRC = ["c20f_drv.f90", "c20f_mll1.f90", "c20f_mll2.f90", "c20f_mll3.f90", "c20f_cgio.f90", "c20f_extra.f90", "c20f_dl2.f90",
-           "c20f_goto20.f90", "c20f_main.f90"]
+           "c20f_goto20.f90", "c20f_impl.f90", "c20f_main.f90"]
 DL = [1, 8, 31, 32, 33, 40, 80]
 # declared lengths per argument of the dl2_* operations (harness/c20f_dl2.f90): all orderings of three distinct lengths
 TRIPLES = [(8, 32, 40), (8, 40, 32), (32, 8, 40), (32, 40, 8), (40, 8, 32), (40, 32, 8), (1, 33, 80), (80, 31, 1)]
@@ -446,6 +446,66 @@ def gen_deep_script(rng, stats):
     return s
 
 
+def gen_implicit_script(rng, stats):
+    """the wrappers WITHOUT an interface body in cgns_f.F90 (implicit interface: the Fortran driver is the only tie).  Integer
+    arrays carry values that change under a width mix-up: negative, non-zero second / third elements, above 2^31."""
+    H = lambda b: hx(b)
+    ni = rng.choice([(0, 0, 1), (0, 1, 0), (-1, 0, 0), (0, 0, -1), (0, -1, 0)])
+    ni2 = rng.choice([(0, 1, 0), (0, 0, 1), (-1, 0, 0)])
+    big = [rng.choice([-5, -1, 7, 4000000000, 2147483648, 3000000001, 12, -2147483649]) for _ in range(6)]
+    s = ["open w", "base %s 3 3" % H(b"Base"), "zone %s 1 s 3" % H(b"Z1"), "zone %s 1 u 8" % H(b"Z2"), "close", "open m",
+         # (modify mode: everything below both writes and reads)  coordinates of the structured zone: partial, general (memory space of another rank / size)
+         "coord_partial_write 1 1 4 %s 1 1 1 3 3 2" % H(b"CoordinateX"), "coord_partial_write 1 1 4 %s 1 1 3 3 3 3" % H(b"CoordinateX"),
+         "coord_general_write 1 1 %s 4 1 1 1 3 3 3 4 1 27 1 27" % H(b"CoordinateY"),
+         "coord_general_write 1 1 %s 3 1 1 1 3 3 3 4 3 5 5 5 2 2 2 4 4 4" % H(b"CoordinateZ"),
+         "coord_general_read 1 1 %s 1 1 1 3 3 3 4 1 40 3 29" % H(b"CoordinateY"),
+         "coord_general_read 1 1 %s 1 2 1 3 3 2 3 2 4 5 1 2 3 5" % H(b"CoordinateZ  "),
+         "coord_general_read 1 1 %s 1 1 1 3 3 3 4 1 27 1 27" % H(b"CoordinateX"), "coord_read 1 1 %s 3" % H(b"CoordinateX"),
+         "sol_write 1 1 %s 2" % H(b"Sol"),
+         "field_partial_write 1 1 1 4 %s 1 1 1 3 3 3" % H(b"Pressure"),
+         "field_general_write 1 1 1 %s 4 1 1 1 3 3 3 4 1 30 2 28" % H(b"Density   "),
+         "field_general_write 1 1 1 %s 3 1 1 1 3 3 3 3 2 9 4 1 2 9 4" % H(b"Temperature"),
+         "field_general_read 1 1 1 %s 1 1 1 3 3 3 4 1 27 1 27" % H(b"Density"),
+         "field_general_read 1 1 1 %s 2 2 2 3 3 3 3 1 8 1 8" % H(b"Pressure"), "nfields 1 1 1", "field_info 1 1 1 3 32",
+         # element sections of the unstructured zone: TETRA_4 = 10, TRI_3 = 5, NGON_n = 22
+         "section_write 1 2 %s 10 1 4 0" % H(b"Tets"), "elements_read 1 2 1 16 0",
+         "parent_data_write 1 2 1 16 0 2 1 0 3 0 0 4 1 2 3 4 4 3 2 1", "elements_read 1 2 1 16 16",
+         "elements_partial_write 1 2 1 5 6 8 5 6 7 8 8 7 6 5", "elements_partial_read 1 2 1 2 5 16 16",
+         "elements_general_write 1 2 1 7 7 2 4 1 3 5 7", "elements_general_write 1 2 1 8 8 6 4 2 4 6 8",
+         "elements_general_read 1 2 1 1 8 6 32", "elements_general_read 1 2 1 3 6 2 16",
+         "parent_data_partial_write 1 2 1 5 8 16 1 0 2 0 3 1 4 2 1 2 3 4 0 0 0 0",
+         "parent_elements_general_read 1 2 1 1 8 6 16", "parent_elements_position_general_read 1 2 1 1 8 2 16",
+         "section_general_write 1 2 %s 5 6 9 12 0 0" % H(b"Gen"), "section_initialize 1 2 2", "elements_partial_write 1 2 2 9 10 6 1 2 3 2 3 4",
+         "section_read 1 2 2 32", "elements_partial_read 1 2 2 9 12 12 0",
+         "poly_section_write 1 2 %s 22 13 14 0 7 1 2 3 4 5 6 7 3 0 3 7" % H(b"Ngon"), "poly_elements_read 1 2 3 7 3 0",
+         "poly_elements_partial_write 1 2 3 15 15 3 2 3 4 2 0 3", "poly_elements_partial_read 1 2 3 13 15 10 4 0",
+         "poly_elements_general_write 1 2 3 16 16 6 3 5 6 7 2 0 3", "poly_elements_general_write 1 2 3 17 17 2 3 8 1 2 2 0 3",
+         "poly_elements_general_read 1 2 3 13 17 6 16 6", "poly_elements_general_read 1 2 3 14 16 2 10 4", "section_read 1 2 3 32",
+         # boundary conditions of the structured zone: NormalIndex other than (+1,0,0)
+         "boco_write 1 1 %s 20 4" % H(b"BC1"), "boco_write 1 1 %s 21 2" % H(b"BC2"),
+         "boco_normal_write 1 1 1 %d %d %d 1 4" % ni, "boco_normal_write 1 1 2 %d %d %d 0 3" % ni2,
+         "boco_info 1 1 1 32", "boco_info 1 1 2 32", "boco_read 1 1 1 12 12", "boco_read 1 1 2 6 0",
+         "grid_bbox_write 1 1 1 4", "grid_bbox_read 1 1 1 4", "grid_bbox_read 1 1 1 3",
+         # node-context calls
+         "goto 1 Zone_t 1", "user_data_write %s" % H(b"UD"), "gorel UserDefinedData_t 1", "gridlocation_write 2",
+         "ptset_write 2 2 6 " + " ".join(map(str, big)), "ptset_read 6", "ptset_read 2",
+         "array_general_write %s 4 1 10 1 10 4 1 12 2 11" % H(b"Arr"), "array_general_write %s 3 2 3 4 1 1 3 4 4 1 12 1 12" % H(b"Arr2 "),
+         "narrays", "array_info 1 32", "array_info 2 32", "array_general_read 1 1 2 9 4 1 20 5 12", "array_general_read 2 2 1 2 3 3 3 2 3 4 1 1 3 2",
+         "array_read_as 1 3 10", "array_read_as 1 4 10", "array_read_as 2 4 12",
+         "gotov 1 3 %s 1 %s 1 %s 1" % (H(b"Zone_t"), H(b"UserDefinedData_t"), H(b"DataArray_t")), "where",
+         "exponents_write 4", "exponents_read", "conversion_write 4", "conversion_read",
+         "gotov 1 3 %s 1 %s 1 %s 2" % (H(b"Zone_t"), H(b"UserDefinedData_t"), H(b"DataArray_t")),
+         "expfull_write 3", "expfull_read", "conversion_write 3", "conversion_read", "exponents_read",
+         "close", "open m", "boco_info 1 1 1 32", "boco_read 1 1 1 12 12", "elements_read 1 2 1 32 32", "poly_elements_read 1 2 3 16 6 0",
+         "goto 1 Zone_t 1", "gorel UserDefinedData_t 1", "ptset_read 6", "array_read_as 1 4 10", "close",
+         # cgio data access
+         "io_open w 0", "io_new 0 %s %s %s 20" % (H(b"node"), H(b"L_t"), H(b"I4")), "io_write_block 1 3 10", "io_read_block 1 1 20 %s" % H(b"I4"),
+         "io_read_block 1 %d %d %s" % (rng.randint(1, 5), rng.randint(6, 20), H(b"I4 ")),
+         "io_write_data 1 2 20 3 64 5 17 2", "io_read_data 1 1 20 1 %s 64 1 20 1" % H(b"I4"), "io_read_data 1 2 20 3 %s 64 10 16 1" % H(b"I4  "),
+         "io_read_all 1 %s 30" % H(b"I4"), "io_close"]
+    return s
+
+
 def gen_twofile_script(rng, stats):
     """two files open at once: the position is in one, cg_gorel_f / cg_goto_f / node-context calls get the OTHER handle"""
     s = ["open w", "base %s 3 3" % hx(b"BaseA"), "zone %s 1 s 3" % hx(b"ZA"), "sol_write 1 1 %s 2" % hx(b"SolA"),
@@ -540,7 +600,7 @@ def c20_script(gen_name):
 
 
 GENERATORS = [("mll", c20_script("gen_mll_script")), ("cgio", c20_script("gen_cgio_script")),
-              ("modproc", gen_modproc_script), ("dlio", gen_dlio_script), ("goto", gen_goto_script), ("deep", gen_deep_script), ("twofile", gen_twofile_script),
+              ("modproc", gen_modproc_script), ("dlio", gen_dlio_script), ("goto", gen_goto_script), ("deep", gen_deep_script), ("implicit", gen_implicit_script), ("twofile", gen_twofile_script),
               ("multichar", gen_multichar_script)]
 
 
@@ -577,6 +637,13 @@ def _name_field(line, tag):
     return (m.group(1), m.group(2)) if m else None
 
 
+IMPLICIT_OPS = set("coord_partial_write coord_general_write coord_general_read field_partial_write field_general_write field_general_read "
+                   "elements_read poly_elements_read poly_section_write section_general_write section_initialize parent_data_write "
+                   "elements_partial_write elements_general_write poly_elements_partial_write poly_elements_general_write parent_data_partial_write "
+                   "elements_partial_read poly_elements_partial_read elements_general_read poly_elements_general_read parent_elements_general_read "
+                   "parent_elements_position_general_read boco_read boco_normal_write grid_bbox_write grid_bbox_read ptset_write ptset_read "
+                   "array_read_as array_general_read array_general_write exponents_write expfull_write conversion_write exponents_read expfull_read "
+                   "conversion_read io_write_block io_read_block io_write_data io_read_data".split())
 GOTO_KEY = "cg_ftoc.c:cg_goto_fc1+cg_gorel_fc1:path-terminator-test-differs-from-cg_goto"
 MOVE_OPS = ("gotov", "gorelv", "dl_goto")
 RESET_OPS = ("goto", "gotov", "dl_goto", "gopath", "open", "close", "open2", "close2")     # set the position anew / drop it
@@ -622,6 +689,10 @@ def norm(l):
     harness prints whatever cg_base_write left in *B, the module procedure copies an unset local)"""
     if l and re.match(r"(base|zone|zone2) ier=[^0]", l):
         return re.sub(r" [BZ]=-?\d+$", "", l)
+    # cg_coord_partial_write / cg_field_partial_write leave *C / *F alone when they extend an existing array (the wrapper then
+    # copies an unset local): the index output of the partial writes is not compared
+    if l and re.match(r"(coord|field)_partial_write ier=0", l):
+        return re.sub(r" [CF]=-?\d+$", "", l)
     return l
 
 
@@ -765,6 +836,14 @@ def run_extra(ck, standalone=False):
                                             "no_c_definition_found", "module_procedures", "rows", "parse_problems", "gen_sha1")}
     ex["translator"]["wrappers_without_interface"] = len(info["wrappers_without_interface"])
     ex["translator"]["goto_terminator_tests"] = info.get("goto_terminator_tests")
+    ex["translator"]["goto_blocks"] = info.get("goto_blocks")
+    # wrappers the module does not declare: documented by a well-formed commented-out interface body (static tie ADoc) or not;
+    # for all of them the Fortran driver is the dynamic tie -- those without an operation in the driver are listed
+    drv_text = "".join(open(os.path.join(vlib.ROOT, "harness", f_)).read() for f_ in DRV_SRC).lower()
+    ex["wrappers_without_interface_body"] = {
+        "documented_in_comments": info.get("implicit_documented"), "comment_bodies_not_well_formed": info.get("comment_bodies_not_well_formed"),
+        "undocumented": info.get("implicit_undocumented"),
+        "without_driver_operation": [n for n in info["wrappers_without_interface"] if ("call " + n.lower() + "(") not in drv_text]}
     res = vlib.coq_check_properties("C20f")
     n = len(res["theorems"])
     ck.cov["obligations"] += n
@@ -828,7 +907,7 @@ def run_extra(ck, standalone=False):
         ck.cov["traces_validated_against_impl"] += 1
         for l in script:
             t = l.split()
-            nt = t[0].startswith("dl_") or t[0] in ("gotov", "gorelv", "base_read", "zone_read", "coord_info", "family_read", "geo_read",
+            nt = t[0].startswith("dl") or t[0] in IMPLICIT_OPS or t[0] in ("gotov", "gorelv", "where", "base_read", "zone_read", "coord_info", "family_read", "geo_read",
                                                     "discrete_read", "array_info", "1to1_read_global", "io_children_names", "gopath")
             for a in t[1:]:
                 if re.fullmatch(r"([0-9a-f]{2})+", a) and len(a) > 6:
@@ -913,12 +992,15 @@ def run_extra(ck, standalone=False):
 
 def run(ck):
     run_extra(ck, standalone=True)
-    ck.cov["rule"] = ("three-way scenarios: the seeded MLL and cgio scenarios of C20 (minus state_size, which does not link) + module-procedure "
-                      "scenarios (base/zone/coord/family/geo/discrete/array reads with output lengths strlen-1, strlen, strlen+1, cg_goto_f with "
-                      "1-4 label/index pairs, cg_gopath_f) + declared-length battery (CHARACTER(1,8,31,32,33,40,80) variables between guard "
-                      "fields, CHARACTER*(n) arrays), each on ADF and HDF5, Fortran program vs C harness wrapper mode vs direct mode; "
-                      "link-all: one call per interface body and per undeclared wrapper. non-trivial = a dl_/module-procedure/array line or "
-                      "a line with an over-long or blank-only string; distinct by SHA1 of the line")
+    ck.cov["rule"] = ("three-way scenarios (Fortran program vs C harness wrapper mode vs direct C call, ADF and HDF5): the seeded MLL and cgio "
+                      "scenarios of C20; module procedures (name reads with output lengths strlen-1, strlen, strlen+1, cg_gopath_f); declared-length "
+                      "batteries (CHARACTER(1,8,31,32,33,40,80) between guard fields; every routine with >= 2 CHARACTER arguments with different "
+                      "declared lengths per argument in all orderings; CHARACTER*(n) arrays); go-to family around the path terminators; cg_goto_f / "
+                      "cg_gorel_f with every number of pairs 1..20 on a tree whose index and name differ at every depth (cg_where + marker); two "
+                      "files open, other file's handle; every wrapper without an interface body (implicit interface) with integer arrays that are "
+                      "not invariant under a width mix-up (negative, non-zero 2nd/3rd elements, above 2^31). link-all: one call per interface body "
+                      "and per undeclared wrapper. non-trivial = a dl_/module-procedure/array/go-to line or a line with an over-long or blank-only "
+                      "string; distinct by SHA1 of the line")
 
 
 def replay(ck, path):
